@@ -62,6 +62,7 @@ func checkC04(c *Ctx, r *Report) {
 	checkFieldUse(c, r)
 	checkRSState(c, r)
 	checkRSWhole(c, r)
+	checkRSInstances(c, r)
 	// kinds of the decoder
 	r.Rule("E-KIND-RS", "ReedSolomonDecoder.Decode returns only ReedSolomonException-kind errors (so callers' checksum mapping sees every failure)", 1)
 	nf := c.newNilFlow()
